@@ -58,7 +58,7 @@ PROPERTIES = {
                "NOT decided: that any closed form equals the expectation (value-level)."),
     "C02": dict(
         specs=[S("ORDER"), S("A2"), S("CONSTANTS"), S("REBUILD"), S("MEMO"), S("SPLICE", r"program/transformer/|program/distribution/"), S("FLAG"),
-               S("IFFLAT"), S("MULTIASSIGN"), S("DISTREWRITE"), S("COND2ARITHM"), S("SECTIONTABLES"), S("MARKLAST"), S("LOSTUPDATE")],
+               S("IFFLAT"), S("MULTIASSIGN"), S("DISTREWRITE"), S("COND2ARITHM"), S("SECTIONTABLES"), S("MARKLAST"), S("LOSTUPDATE"), S("DEPSOURCES")],
         clause="typestate of the 10-pass pipeline on all settings paths; write-back of substitutions in all subs implementations; constant folding guarded by a "
                "free-symbol test; section rebuilders keep every assignment; memo invalidation; parenthesised location/scale templates. "
                "NOT decided: semantic equivalence of the if-flattening / alias rewrites."),
@@ -134,7 +134,7 @@ PROPERTIES = {
         clause="options are written only by the CLI setter and read at call time; settings<->options<->setter census; every root source is complete and approximations clear "
                "the flag; cond2arithm keeps every assignment; categorical expansion keeps index/value/probability aligned. NOT decided: equality of closed forms across settings."),
     "C18": dict(
-        specs=[S("EXCEPT"), S("FALLTHROUGH"), S("QUANT"), S("REBUILD"), S("COND2ARITHM"), S("SECTIONTABLES"), S("SUPPORT", r"get_free_symbols"), S("LOSTUPDATE"), S("VOCAB", r"dispatch|mixing"), S("D2"), S("ABSTRACT"), S("MGF")],
+        specs=[S("EXCEPT"), S("FALLTHROUGH"), S("QUANT"), S("REBUILD"), S("COND2ARITHM"), S("SECTIONTABLES"), S("SUPPORT", r"get_free_symbols"), S("LOSTUPDATE"), S("DEPSOURCES"), S("VOCAB", r"dispatch|mixing"), S("D2"), S("ABSTRACT"), S("MGF")],
         clause="the safety half only (`whatever Polar refuses, it refuses with an error; a refusal never takes the form of a wrong or partial result`): no exception handler swallows an exception "
                "(each re-raises on every path or is a reviewed complete fallback); no function returns a value on some paths and ends without one on others unless its callers test for the missing value; "
                "section rebuilders and cond2arithm raise for what they cannot convert instead of dropping it; dispatchers on operators / function names are total or end in raise; exponentials and mgf uses sit behind raising checks. "
